@@ -298,6 +298,9 @@ func CheckRevert(ctx context.Context, s *StepInfo, rep *Report) {
 		rep.Add("revert:mark", "revert transaction metadata %v lacks the revert mark for %d", rv.Metadata, orig.ID)
 	}
 	for k, v := range s.Last.Meta {
+		if k == "com.formance.spec/state/reverts" {
+			continue // reserved: the mark (checked above) wins over what the request says
+		}
 		if rv.Metadata[k] != v {
 			rep.Add("revert:metadata", "revert metadata %v lacks requested %s=%s", rv.Metadata, k, v)
 		}
